@@ -206,6 +206,7 @@ def run(f, fixture, rep, cfg, tier):
     rep.floor("R", "panic/alloc sites enumerated on the read cone (%s)" % cfg, aud.stats["sites"], 25)
     # tainted-count loops must be able to fail and must advance the cursor
     check_count_loops(f, rep, cone)
+    check_iteration_ends(f, rep)
     # the string-list loops additionally have to advance past every terminator (C05.R2): a cursor that can stand still turns the
     # entry's count into that many empty strings
     rep.include("c05", f, fixture, cfg, tier, "R", "string-list loop cursor", only_rules={"R2"}, floor=1)
@@ -224,6 +225,33 @@ def run(f, fixture, rep, cfg, tier):
         a3.audit_body(fixture.one(name))
     rep.check(not probe2.findings, "control", "control|negative", "guarded / bounded / infeasible controls are accepted",
               "negative controls are flagged: %s" % [fd["key"] for fd in probe2.findings])
+
+
+def check_iteration_ends(f, rep):
+    """Iterating the payload of a hostile package terminates: whenever FileIterator::next reports an error it also ends the
+    iteration (`count = file_entries.len()`), otherwise a truncated archive yields the same error forever."""
+    its = [b for b in f.body_list if b.impl_trait == "std::iter::Iterator" and "package::FileIterator" in (b.impl_self or "") and b.name == "next"]
+    if not rep.anchor(len(its) == 1, "R", "impl Iterator for FileIterator"):
+        return
+    it = its[0]
+    from c07 import count_write_kinds
+    steps, terminal, other = count_write_kinds(it)
+    errs = []
+    for bb in it.reachable():
+        for st in it.stmts(bb):
+            if st["k"] == "assign" and st["lhs"]["l"] == 0 and not st["lhs"]["p"] and st["rv"]["r"] == "agg" and st["rv"].get("variant") == "Some":
+                is_err = False
+                for lf in it.origins(st["rv"]["ops"][0], passthrough={}):
+                    if lf["kind"] == "agg" and lf["stmt"]["rv"].get("variant") == "Err":
+                        is_err = True
+                if is_err:
+                    errs.append(bb)
+    rep.floor("R", "error returns of FileIterator::next", len(errs), 3)
+    for i, bb in enumerate(sorted(errs)):
+        ok = any(t_ == bb or it.dominates(t_, bb) for t_ in terminal)
+        rep.check(ok, "R", "FileIterator::next|error-ends-iteration|#%d" % i, "an error return of FileIterator::next ends the iteration",
+                  "FileIterator::next returns Some(Err(..)) without ending the iteration: the next call runs into the same condition again - files() on a truncated or corrupt archive never terminates",
+                  "%s:%s" % (it.file, it.term(bb).get("line")))
 
 
 def check_count_loops(f, rep, cone):
